@@ -59,7 +59,8 @@ class Run:
         self.analysed = {"modules": set(), "functions": set()}
 
     def rule(self, rid, text, floor):
-        full = "%s.%s" % (self.prop, rid) if not rid.startswith("C") else rid
+        import re as _re
+        full = rid if _re.match(r"^C\d\d\.", rid) else "%s.%s" % (self.prop, rid)
         r = Rule(full, text, floor)
         self.rules[full] = r
         self.order.append(full)
